@@ -303,13 +303,14 @@ func FuncType(f *Func) reflect.Type {
 	if f.Variadic {
 		in = append(in, varType)
 	}
-	if f.HasErr && f.ErrFirst {
-		out = append(out, errType)
-	}
-	for _, r := range f.Results {
+	ei := f.ErrIndex()
+	for i, r := range f.Results {
+		if i == ei {
+			out = append(out, errType)
+		}
 		out = append(out, resultType(f, r, true))
 	}
-	if f.HasErr && !f.ErrFirst {
+	if ei >= 0 && ei == len(f.Results) {
 		out = append(out, errType)
 	}
 	return reflect.FuncOf(in, out, f.Variadic)
@@ -541,11 +542,12 @@ func (w *World) call(f *Func, ft reflect.Type, args []reflect.Value) []reflect.V
 		poison: fault != FaultNone, zero: fault == FaultErr}
 	nres := len(f.Results)
 	out := make([]reflect.Value, 0, nres+1)
-	off := 0
-	if f.HasErr && f.ErrFirst {
-		off = 1
-	}
+	ei := f.ErrIndex()
 	for i, r := range f.Results {
+		off := 0
+		if ei >= 0 && ei <= i {
+			off = 1
+		}
 		out = append(out, w.buildResult(c, r, ft.Out(i+off), true))
 	}
 	res := OutOK
@@ -555,11 +557,9 @@ func (w *World) call(f *Func, ft reflect.Type, args []reflect.Value) []reflect.V
 			ev = reflect.ValueOf(w.injErr(f.ID, exec)).Convert(errType)
 			res = OutErr
 		}
-		if f.ErrFirst {
-			out = append([]reflect.Value{ev}, out...)
-		} else {
-			out = append(out, ev)
-		}
+		out = append(out, reflect.Value{})
+		copy(out[ei+1:], out[ei:])
+		out[ei] = ev
 	}
 	if f.Reenter && f.Role == RoleCtor && fault == FaultNone {
 		w.reenter(f)
